@@ -93,5 +93,16 @@ Record tables : Set := mk_tables {
   t_dnc_skips_art : bool;                   (* api.do_not_convert *)
   t_unspec_skips_art : bool;                (* api.call_with_unspecified_conversion_status *)
   t_convert_skips_art : bool;               (* api.convert.decorator *)
-  t_internal_skips_art : bool               (* api.internal_convert *)
+  t_internal_skips_art : bool;              (* api.internal_convert *)
+  (* converters/functions.py FunctionTransformer._function_scope_options: which options the code generator bakes into
+     the FunctionScope(..) of a function definition of a converted entity.
+     nested (false = the entity's top-level function, true = a def nested in it, at any depth) ->
+     user_requested of the requested options -> recursive of the requested options ->
+     user_requested of the options the scope is created with.  (The recursive flag is the requested one in
+     every shape the translator accepts.) *)
+  t_scope_user_requested : bool -> bool -> bool -> bool;
+  (* core/converter.py ConversionOptions.call_options(): user_requested of the receiver -> user_requested of the
+     result (recursive is kept, internal_convert_user_code := recursive: pinned by the translator);
+     FunctionScope.callopts = options.call_options() is what converted code passes to converted_call *)
+  t_call_options_user_requested : bool -> bool
 }.
